@@ -48,21 +48,41 @@ ParentOf(g, root, n) ==
   LET P == {i \in Wanted(g, root) : n \in ToSet(Kids(g, i))} IN IF P = {} THEN 0 ELSE CHOOSE i \in P : TRUE
 
 (* ---------- reference: Clone ---------- *)
-Iso(a, b) == a.nodes = b.nodes                                   \* same kinds, scalars, shape (local numbering)
-Disjoint(a, b) == ToSet(a.pids) \cap ToSet(b.pids) = {}          \* no node of the copy is a node of the original
-Unchanged(before, after) == before.nodes = after.nodes           \* the original after the copy was mutated
+\* first difference between the subtree of A rooted at i and the subtree of B rooted at j, found by descending
+\* both in parallel (depth first): <<>> when structurally equal (kinds, scalars, nil-ness and number of children,
+\* recursively), else <<kind of the node where they differ, field or scalar name, what differs>>
 FirstDiff(a, b) == LET n == IF Len(a) < Len(b) THEN Len(a) ELSE Len(b)
                        D == {i \in 1..n : a[i] # b[i]} IN
                    IF D = {} THEN 0 ELSE CHOOSE i \in D : \A j \in D : i <= j
-\* what differs first between two node sequences: <<kind, field or scalar name, cause>>
-DiffOf(a, b) ==
-  LET i == FirstDiff(a, b) IN
-  IF i = 0 THEN <<IF Len(a) > 0 THEN a[1].k ELSE "-", "-", "size">>
-  ELSE LET x == a[i]  y == b[i] IN
-       IF x.k # y.k THEN <<x.k, "-", "kind">>
-       ELSE IF x.v # y.v
-            THEN LET j == FirstDiff(x.v, y.v) IN <<x.k, IF j = 0 THEN "-" ELSE x.v[j][1], "scalar">>
-            ELSE LET j == FirstDiff(x.f, y.f) IN <<x.k, IF j = 0 THEN "-" ELSE x.f[j].n, "children">>
+NilPattern(c) == [e \in 1..Len(c) |-> c[e] = 0]
+\* a different node sits in the slot: another kind, or a node of the same kind differing in two or more scalars
+\* (position and name, ...); a node differing in a single scalar is a copy of the right node with that scalar wrong
+NDiff(x, y) == IF Len(x.v) # Len(y.v) THEN 2 ELSE Cardinality({q \in 1..Len(x.v) : x.v[q] # y.v[q]})
+OtherNode(x, y) == x.k # y.k \/ Len(x.f) # Len(y.f) \/ NDiff(x, y) >= 2
+RECURSIVE DiffAt(_, _, _, _)
+RECURSIVE FieldsDiff(_, _, _, _, _)
+RECURSIVE ElemsDiff(_, _, _, _, _)
+ElemsDiff(A, ca, B, cb, e) ==
+  IF e > Len(ca) THEN <<>>
+  ELSE IF ca[e] = 0 THEN ElemsDiff(A, ca, B, cb, e + 1)
+  ELSE LET d == DiffAt(A, ca[e], B, cb[e]) IN IF d # <<>> THEN d ELSE ElemsDiff(A, ca, B, cb, e + 1)
+FieldsDiff(A, i, B, j, x) ==
+  IF x > Len(A[i].f) THEN <<>>
+  ELSE LET ca == A[i].f[x].c  cb == B[j].f[x].c IN
+       IF \/ NilPattern(ca) # NilPattern(cb)
+          \/ \E e \in 1..Len(ca) : ca[e] # 0 /\ OtherNode(A[ca[e]], B[cb[e]])
+       THEN <<A[i].k, A[i].f[x].n, "children">>
+       ELSE LET d == ElemsDiff(A, ca, B, cb, 1) IN IF d # <<>> THEN d ELSE FieldsDiff(A, i, B, j, x + 1)
+DiffAt(A, i, B, j) ==
+  LET x == A[i]  y == B[j] IN
+  IF x.k # y.k \/ Len(x.f) # Len(y.f) THEN <<x.k, "-", "kind">>
+  ELSE IF x.v # y.v THEN LET q == FirstDiff(x.v, y.v) IN <<x.k, IF q = 0 THEN "-" ELSE x.v[q][1], "scalar">>
+  ELSE FieldsDiff(A, i, B, j, 1)
+DiffOf(a, b) == IF a = <<>> \/ b = <<>> THEN (IF a = b THEN <<>> ELSE <<"-", "-", "size">>) ELSE DiffAt(a, 1, b, 1)
+Iso(a, b) == DiffOf(a.nodes, b.nodes) = <<>>                     \* structurally equal: kinds, scalars, shape
+Disjoint(a, b) == ToSet(a.pids) \cap ToSet(b.pids) = {}          \* no node of the copy is a node of the original
+Unchanged(before, after) == before = after                       \* the original (same pointers, same content) after the copy was mutated
+ChangeOf(before, after) == LET d == DiffOf(before.nodes, after.nodes) IN IF d = <<>> THEN <<before.nodes[1].k, "-", "identity">> ELSE d
 
 (* ---------- model: a correct Clone (fresh identities, equal shape) and two broken ones ---------- *)
 MaxPid(g) == IF g.pids = <<>> THEN 0 ELSE CHOOSE m \in ToSet(g.pids) : \A x \in ToSet(g.pids) : x <= m
